@@ -86,28 +86,37 @@ theorem C01_partial_history (env : Env) (cs : List (Cmd User.Op))
   have := undo_all_returns_to_base (sys env) (fun w => w) _ (laws env) _ c hr
   rw [this, hb]
 
-/-! Outside the domain the model (faithful to the engine) does violate the property: finding F01d.
-    A second sheet with a hyperlink; `delete_sheet(1)`; the undo arm of `Diff::DeleteSheet` copies
-    rows, cols, grid lines, frozen panes, state and colour back, but not `links`. -/
+/-! Outside the domain the model (faithful to the engine) still violates the property in one place,
+    F01o: `delete_sheet` deletes the names local to the sheet and records one `DeleteDefinedName`
+    diff per name; undo re-creates them with `new_defined_name`, which APPENDS, so a local name
+    that stood in front of another name in `workbook.defined_names` (the order
+    `get_defined_name_list` reports) comes back behind it.  Everything else of the sheet — since
+    the fix of F01d also its links — is restored. -/
 
 def envEx : Env :=
   { validTz := fun s => s == "UTC", validLocale := fun s => s == "en", upper := fun s => s }
 
+def namedBook : Book :=
+  { Book.init with
+    sheets := [emptySheet "Sheet1" 1, emptySheet "Sheet2" 2],
+    names := [⟨"a", "Sheet2!$A$1", some 2⟩, ⟨"b", "Sheet1!$A$1", none⟩] }
+
+theorem C01_full_false : ¬ C01_full envEx := by
+  intro h
+  have h1 := h namedBook (.deleteSheet 1)
+    [.deleteDefinedName "a" 1 "Sheet2!$A$1", .deleteSheet 1 (emptySheet "Sheet2" 2)]
+    (by decide) rfl
+  have h2 : ((applyBack envEx (doOp envEx namedBook (.deleteSheet 1)).w
+      [.deleteDefinedName "a" 1 "Sheet2!$A$1", .deleteSheet 1 (emptySheet "Sheet2" 2)]).w.names.map
+        fun d => d.name) = ["b", "a"] := by decide
+  rw [h1.2] at h2
+  exact absurd h2 (by decide)
+
+/-- links are restored by the undo of `delete_sheet` (fixed finding F01d): inside the domain -/
 def linkedBook : Book :=
   { Book.init with sheets :=
       [emptySheet "Sheet1" 1,
        { emptySheet "Sheet2" 2 with links := [(1, 1, "https://example.com")] }] }
-
-theorem C01_full_false : ¬ C01_full envEx := by
-  intro h
-  have h1 := h linkedBook (.deleteSheet 1)
-    [.deleteSheet 1 { emptySheet "Sheet2" 2 with links := [(1, 1, "https://example.com")] }]
-    (by decide) rfl
-  have h2 : ((applyBack envEx (doOp envEx linkedBook (.deleteSheet 1)).w
-      [.deleteSheet 1 { emptySheet "Sheet2" 2 with links := [(1, 1, "https://example.com")] }]).w.sheets.map
-        fun s => s.links.length) = [0, 0] := by decide
-  rw [h1.2] at h2
-  exact absurd h2 (by decide)
 
 /-- the hidden-column resize (fixed finding F01c) is now inside the domain and undone exactly -/
 def hiddenBook : Book :=
@@ -119,8 +128,20 @@ example : dom envEx Book.init (.setColumnsWidth 0 2 5 40) = true := by decide
 example : (doOp envEx Book.init (.setColumnsWidth 0 2 5 40)).pushed.map List.length = some 4 := by
   decide
 example : dom envEx hiddenBook (.setColumnsWidth 0 3 3 50) = true := by decide
-example : dom envEx linkedBook (.deleteSheet 1) = false := by decide
+example : dom envEx linkedBook (.deleteSheet 1) = true := by decide
+example : dom envEx namedBook (.deleteSheet 1) = false := by decide
+example : ((applyBack envEx (doOp envEx linkedBook (.deleteSheet 1)).w
+    [.deleteSheet 1 { emptySheet "Sheet2" 2 with links := [(1, 1, "https://example.com")] }]).w.sheets.map
+      fun s => s.links.length) = [0, 1] := by decide
 example : ((applyBack envEx (doOp envEx hiddenBook (.setColumnsWidth 0 3 3 50)).w
     [.setColumnWidth 0 3 200 50]).w.sheets.map fun s => (s.colAt 3).width) = [200] := by decide
+
+/-! plain cells: typed text and range clear are inside the domain (non-vacuity of `C01_partial`) -/
+example : dom envEx Book.init (.setPlainInput 0 2 1 "alpha") = true := by decide
+example : (doOp envEx Book.init (.setPlainInput 0 2 1 "alpha")).pushed.map List.length = some 1 := by
+  decide
+example : dom envEx Book.init (.rangeClearContents 0 1 1 3 3) = true := by decide
+example : (doOp envEx Book.init (.rangeClearContents 0 1048576 1 1 2)).err = some .invalidRow := by
+  decide
 
 end IronCalc.User.C01
